@@ -13,7 +13,7 @@ echo "== demo on changed code"; PYTHONPATH=$wt timeout 300 /venv/bin/python -W i
 for c in $pid "$@"; do
   echo "== check $c on changed code"
   VERIF_REPO=$wt /verif/check $c 2>&1 | grep -E "VIOLATION|KNOWN|OK |violation" | head -6 | cut -c1-200
-  for f in /verif/evidence/replays/$c-*.json; do [ -f "$f" ] && python3 -c "
+  for f in /verif/.work/evidence-alt/replays/$c-*.json; do [ -f "$f" ] && python3 -c "
 import json,sys; d=json.load(open('$f')); print('   ', d['kind'], ':', d['what'][:260])"; done
 done
 cd /; git -C /repo worktree remove --force $wt
